@@ -62,8 +62,15 @@ impl TraitHandlerMultiple for IntoEnumHandler {
 
                 let mut arms_token_stream = proc_macro2::TokenStream::new();
 
-                type Variants<'a> =
-                    Vec<(&'a Ident, bool, usize, Ident, &'a Type, Option<&'a Path>)>;
+                type Variants<'a> = Vec<(
+                    &'a Ident,
+                    bool,
+                    usize,
+                    Ident,
+                    &'a Type,
+                    Option<&'a Path>,
+                    Option<&'a Ident>,
+                )>;
 
                 let mut variants: Variants = Vec::new();
 
@@ -137,18 +144,18 @@ impl TraitHandlerMultiple for IntoEnumHandler {
                     };
 
                     let (field_name, is_tuple): (Ident, bool) = match field.ident.as_ref() {
-                        Some(ident) => (ident.clone(), false),
+                        Some(ident) => (format_ident!("_{}", ident), false),
                         None => (format_ident!("_{}", index), true),
                     };
 
-                    variants.push((&variant.ident, is_tuple, index, field_name, &field.ty, method));
+                    variants.push((&variant.ident, is_tuple, index, field_name, &field.ty, method, field.ident.as_ref()));
                 }
 
                 if variants.is_empty() {
                     return Err(super::panic::no_into_field(&target_ty));
                 }
 
-                for (variant_ident, is_tuple, index, field_name, ty, method) in variants {
+                for (variant_ident, is_tuple, index, field_name, ty, method, field_ident) in variants {
                     let mut pattern_token_stream = proc_macro2::TokenStream::new();
                     let mut body_token_stream = proc_macro2::TokenStream::new();
 
@@ -178,7 +185,7 @@ impl TraitHandlerMultiple for IntoEnumHandler {
                             quote!( Self::#variant_ident ( #pattern_token_stream ) => #body_token_stream, ),
                         );
                     } else {
-                        pattern_token_stream.extend(quote!( #field_name, .. ));
+                        pattern_token_stream.extend(quote!( #field_ident: #field_name, .. ));
 
                         arms_token_stream.extend(
                             quote!( Self::#variant_ident { #pattern_token_stream } => #body_token_stream, ),
